@@ -1,5 +1,6 @@
 mod ser;
 mod run;
+mod corpus;
 
 fn main() {
     let args: Vec<String> = std::env::args().collect();
@@ -8,6 +9,7 @@ fn main() {
     let opt = |name: &str| args.iter().position(|a| a == name).and_then(|i| args.get(i + 1)).cloned();
     match cmd {
         "run" => run::main(flag("--no-in"), opt("--repeat").and_then(|x| x.parse().ok()).unwrap_or(1)),
+        "corpus" => corpus::main(&opt("--repo").unwrap_or("/repo".into())),
         _ => {
             eprintln!("usage: harness run [--no-in] [--repeat k] < cases");
             std::process::exit(2);
